@@ -453,7 +453,7 @@ func resolveConjunction(pi *parserInfo, v ssa.Value) string {
 				pc, _ = ex.Tuple.(*ssa.Call) // value, ok := matchOperator(c)
 			}
 			if pc != nil {
-				if s, ok := pi.opConst(pc); ok && guardedEqualityReturn(baseOpMatcher(pi.p)) {
+				if s, ok := pi.opConst(pc); ok && guardedEqualityReturn(pi.p, baseOpMatcher(pi.p)) {
 					if name == "strings.ToLower" {
 						return strings.ToLower(s)
 					}
@@ -467,7 +467,7 @@ func resolveConjunction(pi *parserInfo, v ssa.Value) string {
 
 // guardedEqualityReturn: every non-nil return of fn is the address of a string field that was
 // compared equal (==) with the string parameter on the path to the return.
-func guardedEqualityReturn(fn *ssa.Function) bool {
+func guardedEqualityReturn(guardProg *Prog, fn *ssa.Function) bool {
 	if fn == nil || len(fn.Params) < 2 {
 		return false
 	}
@@ -519,6 +519,32 @@ func guardedEqualityReturn(fn *ssa.Function) bool {
 						guarded = true
 					}
 				}
+			}
+		}
+		if !guarded {
+			// the comparison may sit in a predicate helper (tok.isOperator(op)): look at the inlined formula
+			// of each dominating condition for the conjunct  X.field == operator-parameter
+			qz := &quantizer{p: guardProg, elemVar: map[ssa.Value]string{}, inlineAll: true}
+			st := fa.X.Type().Underlying().(*types.Pointer).Elem().Underlying().(*types.Struct)
+			want := qz.prov(fa.X, 0) + "." + st.Field(fa.Field).Name()
+			for _, d := range fn.Blocks {
+				ifi, ok := d.Instrs[len(d.Instrs)-1].(*ssa.If)
+				if !ok || !(d.Succs[0] == b || d.Succs[0].Dominates(b)) || d.Succs[0] == d.Succs[1] {
+					continue
+				}
+				var conj func(q *qf)
+				conj = func(q *qf) {
+					if q.Op == "and" {
+						for _, a := range q.Args {
+							conj(a)
+						}
+						return
+					}
+					if q.Op == "atom" && (q.Atom == "("+want+" == param:"+prm.Name()+")" || q.Atom == "(param:"+prm.Name()+" == "+want+")") {
+						guarded = true
+					}
+				}
+				conj(qz.boolOf(ifi.Cond, map[*ssa.Phi]*qf{}))
 			}
 		}
 		if !guarded {
